@@ -221,6 +221,37 @@ mut("c17_ascii_border", "C17", CLI,
     "            qr.print_ascii(tty=not opts.ascii)\n", "            qr.border = 4 if not opts.ascii else 2\n            qr.print_ascii(tty=not opts.ascii)\n",
     "--ascii art printed with a 2-module quiet zone")
 
+# ---------------- C19 ----------------
+mut2("c19_register_per_image", "C19", [
+    (SVG, "    def __init__(self, *args, **kwargs):\n        super().__init__(*args, **kwargs)\n        # Save the unit size",
+     "    def __init__(self, *args, **kwargs):\n        ET.register_namespace(\"svg\", self._SVG_namespace)\n        super().__init__(*args, **kwargs)\n        # Save the unit size")],
+    "reverts the fix: namespace table rewritten for every image")
+mut2("c19_blank_published_early", "C19", [
+    (MAIN, "            self.modules = [\n                [None] * self.modules_count for i in range(self.modules_count)\n            ]\n",
+     "            self.modules = [\n                [None] * self.modules_count for i in range(self.modules_count)\n            ]\n            blank = precomputed_qr_blanks[self.version] = copy_2d_array(self.modules)\n"),
+    (MAIN, "            precomputed_qr_blanks[self.version] = copy_2d_array(self.modules)\n",
+     "            for row, src in zip(blank, self.modules):\n                row[:] = src\n")],
+    "cache slot reserved before the function patterns are drawn, filled afterwards: sequentially identical")
+mut2("c19_scratch_bitbuffer", "C19", [
+    (UTIL, "def create_data(version, error_correction, data_list):\n    buffer = BitBuffer()\n",
+     "_scratch = BitBuffer()\n\n\ndef create_data(version, error_correction, data_list):\n    buffer = _scratch\n    buffer.buffer = []\n    buffer.length = 0\n")],
+    "module-level scratch BitBuffer reused by every create_data call")
+mut2("c19_class_level_subpaths", "C19", [
+    (SVG, "    def __init__(self, *args, **kwargs):\n        self._subpaths: List[str] = []\n        super().__init__(*args, **kwargs)\n",
+     "    _subpaths: List[str] = []\n\n    def __init__(self, *args, **kwargs):\n        del self._subpaths[:]\n        super().__init__(*args, **kwargs)\n"),
+    (SVG, "        self._subpaths = []\n        self._img.append(self.path)\n",
+     "        del self._subpaths[:]\n        self._img.append(self.path)\n")],
+    "SvgPathImage collects subpaths in a class-level list")
+mut2("c19_codes_reversed_in_place", "C19", [
+    (MAIN, "def copy_2d_array(x):", "_ASCII_CODES = [bytes((code,)).decode(\"cp437\") for code in (255, 223, 220, 219)]\n\n\ndef copy_2d_array(x):"),
+    (MAIN, "        codes = [bytes((code,)).decode(\"cp437\") for code in (255, 223, 220, 219)]\n", "        codes = _ASCII_CODES\n"),
+    (MAIN, "            out.write(\"\\n\")\n        out.flush()\n", "            out.write(\"\\n\")\n        if invert:\n            codes.reverse()\n        out.flush()\n")],
+    "print_ascii reverses a module-level glyph table in place and restores it at the end")
+mut2("c19_drawer_shared_default", "C19", [
+    ("qrcode/image/base.py", "    def get_default_module_drawer(self) -> QRModuleDrawer:\n        return self.default_drawer_class()\n",
+     "    _default_drawers: Dict[type, QRModuleDrawer] = {}\n\n    def get_default_module_drawer(self) -> QRModuleDrawer:\n        cls = self.default_drawer_class\n        if cls not in self._default_drawers:\n            self._default_drawers[cls] = cls()\n        return self._default_drawers[cls]\n")],
+    "default module drawer instances cached per class: the drawer keeps a reference to the *image* it was initialised for")
+
 
 def main():
     os.makedirs(OUT, exist_ok=True)
